@@ -388,6 +388,37 @@ fn fuzz_campaign(id: &str, target: &str, runs: u64, seed: u64, total: &mut Stats
     if !artifacts.is_empty() {
         let why = text.lines().find(|l| l.contains("FUZZ-ORACLE-FAILURE")).unwrap_or("libFuzzer crash (see artifact)").to_string();
         for a in artifacts {
+            // libFuzzer also leaves artifacts that are no failures of the oracle: units that were slow, ran into the
+            // per-unit timeout or the memory limit (a loaded machine is enough). Those are trouble of the run, not
+            // violations: slow units are noted, timeouts and out-of-memory end the check with exit 2.
+            let fname = a.file_name().map(|n| n.to_string_lossy().to_string()).unwrap_or_default();
+            if fname.starts_with("slow-unit-") {
+                total.notes.push(format!("fuzz target {}: libFuzzer reported a slow unit ({}), not a failure", target, fname));
+                continue;
+            }
+            if fname.starts_with("timeout-") || fname.starts_with("oom-") || fname.starts_with("leak-") {
+                eprintln!("[lv] fuzz target {}: libFuzzer artifact {} (time or memory limit of the run, not an oracle failure): inconclusive", target, fname);
+                *code = 2;
+                continue;
+            }
+            // the saved input is the reproducible unit: it is executed once more, alone, in a fresh process; a failure
+            // that does not come back from the saved input (state carried over between units, a stalled machine) is
+            // reported as inconclusive, not as a violation
+            let again = Command::new("cargo")
+                .current_dir(format!("{}/harness", root))
+                .args(["+nightly", "fuzz", "run", "--fuzz-dir"])
+                .arg(format!("{}/fuzz", root))
+                .arg(target)
+                .arg(&a)
+                .stdout(Stdio::null())
+                .stderr(Stdio::null())
+                .status();
+            if matches!(again, Ok(s) if s.success()) {
+                eprintln!("[lv] fuzz target {}: artifact {} does not fail when executed alone in a fresh process: inconclusive", target, fname);
+                total.notes.push(format!("fuzz target {}: artifact {} did not reproduce from the saved input", target, fname));
+                *code = 2;
+                continue;
+            }
             let bytes = std::fs::read(&a).unwrap_or_default();
             let dir = format!("{}/replays/{}", root, id);
             let _ = std::fs::create_dir_all(&dir);
